@@ -1,1 +1,364 @@
+// unit c24_dispatch — C24 "every client request gets exactly one response": the routing layer of emmylua_ls.
+//   * `on_request_handler` = ONE `dispatch_request!` invocation, expanded mechanically from the repository's macro definition
+//   * `ServerContext::{snapshot, send, task, cancel}`
+//   * the `initialize` handshake (slice of `run_ls`), `ServerMessageProcessor::handle_message`, `AsyncConnection::handle_shutdown`
+// The async text is verified in its SEQUENTIAL SCHEDULE (rule family `async-seq`, see unit.py and unit c36_channel); the state
+// shared behind `&self` is the explicit ghost parameter `st`. What is proved is WHICH responses are sent, not when.
+use vstd::prelude::*;
+use std::sync::Arc;
+verus! {
+
+// ---- shims: lsp_server message types, transcribed as data (all fields are public in lsp-server 0.7.9) ----------------------
+/// lsp_server::RequestId: an i32 or a string behind a private enum; Clone / Eq / Hash. Opaque here, `clone` yields an equal id.
+#[verifier::external_body]
+pub struct RequestId { _p: () }
+impl Clone for RequestId {
+    #[verifier::external_body]
+    fn clone(&self) -> (r: RequestId) ensures r == *self { unimplemented!() }
+}
+/// serde_json::Value (opaque)
+#[verifier::external_body]
+pub struct Value { _p: () }
+pub struct Request { pub id: RequestId, pub method: String, pub params: Value }
+pub struct ResponseError { pub code: i32, pub message: String, pub data: Option<Value> }
+pub struct Response { pub id: RequestId, pub result: Option<Value>, pub error: Option<ResponseError> }
+pub struct Notification { pub method: String, pub params: Value }
+pub enum Message { Request(Request), Response(Response), Notification(Notification) }
+/// lsp_server::ErrorCode, discriminants transcribed (msg.rs)
+#[derive(Clone, Copy)]
+pub enum ErrorCode {
+    ParseError = -32700, InvalidRequest = -32600, MethodNotFound = -32601, InvalidParams = -32602, InternalError = -32603,
+    ServerErrorStart = -32099, ServerErrorEnd = -32000, ServerNotInitialized = -32002, UnknownErrorCode = -32001,
+    RequestCanceled = -32800, ContentModified = -32801, ServerCancelled = -32802, RequestFailed = -32803,
+}
+/// serde_json::Error (opaque)
+#[verifier::external_body]
+#[derive(Debug)]
+pub struct SerdeError { _p: () }
+#[verifier::reject_recursive_types(T)]
+pub enum ExtractError<T> { MethodMismatch(T), JsonError { method: String, error: SerdeError } }
+
+/// "serde_json::from_value::<P>(v) is Ok": whether a JSON value deserializes as P. Uninterpreted: nothing is assumed about it.
+pub uninterp spec fn deserializes<P>(v: Value) -> bool;
+
+impl Response {
+    /// `Response { id, result: Some(serde_json::to_value(result).unwrap()), error: None }`. NOT modelled: the unwrap (a result type whose
+    /// Serialize impl fails, e.g. a map with non-string keys, would panic inside the task).
+    #[verifier::external_body]
+    pub fn new_ok<R>(id: RequestId, result: R) -> (r: Response)
+        ensures r.id == id, r.result is Some, r.error is None,
+    { unimplemented!() }
+    /// the body is lsp_server's
+    pub fn new_err(id: RequestId, code: i32, message: String) -> (r: Response)
+        ensures r.id == id, r.result is None, r.error matches Some(e) && e.code == code,
+    {
+        let error = ResponseError { code, message, data: None };
+        Response { id, result: None, error: Some(error) }
+    }
+}
+impl Request {
+    /// lsp_server (msg.rs): `if self.method != method { return Err(MethodMismatch(self)) }  match serde_json::from_value(self.params)
+    /// { Ok(params) => Ok((self.id, params)), Err(error) => Err(JsonError { method: self.method, error }) }`
+    #[verifier::external_body]
+    pub fn extract<P>(self, method: &str) -> (r: Result<(RequestId, P), ExtractError<Request>>)
+        ensures
+            self.method@ != method@ ==> (r matches Err(e) && e == ExtractError::MethodMismatch(self)),
+            self.method@ == method@ && deserializes::<P>(self.params) ==> (r matches Ok(x) && x.0 == self.id),
+            self.method@ == method@ && !deserializes::<P>(self.params) ==> (r matches Err(e) && e is JsonError),
+    { unimplemented!() }
+}
+impl From<Response> for Message {
+    fn from(r: Response) -> (m: Message) ensures m == Message::Response(r) { Message::Response(r) }
+}
+impl vstd::std_specs::convert::FromSpecImpl<Response> for Message {
+    open spec fn obeys_from_spec() -> bool { true }
+    open spec fn from_spec(v: Response) -> Message { Message::Response(v) }
+}
+pub mod lsp_server {
+    pub use super::{ErrorCode, Message, Request, RequestId, Response, Connection};
+}
+pub mod serde_json {
+    pub use super::Value;
+    /// serde_json::from_value: Ok exactly when the value deserializes as T
+    #[verifier::external_body]
+    pub fn from_value<T>(value: Value) -> (r: Result<T, super::SerdeError>)
+        ensures r is Ok <==> super::deserializes::<T>(value),
+    { unimplemented!() }
+}
+
+// ---- the shared state, sequential model (rule `c24-shared-state`) ------------------------------------------------------------
+/// What lives behind `&self` of ServerContext and of the connection, as an explicit parameter:
+///  `sent`  every message handed to a Sender of the CLIENT connection's channel, in order (what the writer thread does with it is
+///          the transport, not covered); `chan` identifies that channel;
+///  `cancellations` the contents of the `cancellations` mutex (token ids); `mx` identifies the mutex;
+///  `init`  the ids of the `initialize` requests that `Connection::initialize_start` has handed out so far.
+pub struct Shared {
+    pub chan: Ghost<int>,
+    pub sent: Ghost<Seq<Message>>,
+    pub mx: Ghost<int>,
+    pub cancellations: Ghost<Map<RequestId, int>>,
+    pub init: Ghost<Seq<RequestId>>,
+}
+pub open spec fn same_ids(a: &Shared, b: &Shared) -> bool { a.chan == b.chan && a.mx == b.mx && a.init == b.init }
+
+/// crossbeam_channel::Sender / Receiver of the connection
+#[verifier::external_body]
+#[verifier::reject_recursive_types(T)]
+pub struct Sender<T> { _p: core::marker::PhantomData<T> }
+#[verifier::external_body]
+#[verifier::reject_recursive_types(T)]
+pub struct Receiver<T> { _p: core::marker::PhantomData<T> }
+#[verifier::external_body]
+#[verifier::reject_recursive_types(T)]
+pub struct SendError<T> { _p: core::marker::PhantomData<T> }
+impl<T> Sender<T> {
+    pub uninterp spec fn chan(&self) -> int;
+    /// `Clone for Sender`: another handle of the same channel
+    #[verifier::external_body]
+    pub fn clone(&self) -> (r: Sender<T>) ensures r.chan() == self.chan() { unimplemented!() }
+}
+impl Sender<Message> {
+    /// crossbeam: hands the message to the (unbounded) channel; Err only when the receiving side (the writer thread) is gone. Either
+    /// way the message has been handed over ONCE: that is what the log records. The callers discard the result (`let _ =`).
+    #[verifier::external_body]
+    pub fn send(&self, msg: Message, st: &mut Shared) -> (r: Result<(), SendError<Message>>)
+        requires self.chan() == old(st).chan@,
+        ensures final(st).sent@ == old(st).sent@.push(msg), final(st).cancellations == old(st).cancellations, same_ids(&*old(st), &*final(st)),
+    { unimplemented!() }
+}
+impl<T> Receiver<T> {
+    #[verifier::external_body]
+    pub fn clone(&self) -> (r: Receiver<T>) { unimplemented!() }
+}
+/// lsp_server::Connection { pub sender, pub receiver }
+pub struct Connection { pub sender: Sender<Message>, pub receiver: Receiver<Message> }
+
+/// lsp_server::ProtocolError (opaque); `?` boxes it into the fn's `Box<dyn Error>`
+#[verifier::external_body]
+pub struct ProtocolError { _p: () }
+impl vstd::std_specs::convert::FromSpecImpl<ProtocolError> for BoxedError {
+    open spec fn obeys_from_spec() -> bool { false }
+    uninterp spec fn from_spec(v: ProtocolError) -> BoxedError;
+}
+impl From<ProtocolError> for BoxedError {
+    #[verifier::external_body]
+    fn from(e: ProtocolError) -> BoxedError { unimplemented!() }
+}
+impl Connection {
+    /// lsp_server (lib.rs, `initialize_start_while`): waits for the first `initialize` request and returns its id and params; a request
+    /// that arrives earlier is answered BY THE LIBRARY with a ServerNotInitialized error (those replies are the library's and are not
+    /// logged in `sent`); Err when the client disconnects or sends something else. Ghost: the id handed out is appended to `st.init`.
+    #[verifier::external_body]
+    pub fn initialize_start(&self, st: &mut Shared) -> (r: Result<(RequestId, Value), ProtocolError>)
+        ensures final(st).sent == old(st).sent, same_ids_but_init(&*old(st), &*final(st)),
+            r matches Ok(x) ==> final(st).init@ == old(st).init@.push(x.0),
+            r is Err ==> final(st).init == old(st).init,
+    { unimplemented!() }
+    /// lsp_server: `let resp = Response::new_ok(initialize_id, initialize_result); self.sender.send(resp.into()).unwrap();` then waits for
+    /// the `initialized` notification (Err when something else arrives or the client disconnects)
+    #[verifier::external_body]
+    pub fn initialize_finish(&self, initialize_id: RequestId, initialize_result: Value, st: &mut Shared) -> (r: Result<(), ProtocolError>)
+        requires self.sender.chan() == old(st).chan@,
+        ensures same_ids(&*old(st), &*final(st)), final(st).cancellations == old(st).cancellations,
+            final(st).sent@ == old(st).sent@.push(final(st).sent@.last()),
+            final(st).sent@.last() matches Message::Response(x) && x.id == initialize_id && x.error is None && x.result is Some,
+    { unimplemented!() }
+}
+pub struct InitializeParams { pub capabilities: ClientCapabilities }
+#[verifier::external_body]
+pub struct ClientCapabilities { _p: () }
+#[verifier::external_body]
+pub struct ServerCapabilities { _p: () }
+/// the repository's `server_capabilities` (handlers/mod.rs, generated by `capabilities!`): opaque here
+#[verifier::external_body]
+pub fn server_capabilities(client_capabilities: &ClientCapabilities) -> ServerCapabilities { unimplemented!() }
+#[verifier::external_body]
+pub fn vx_json_value() -> Value { unimplemented!() }
+#[verifier::external_body]
+pub fn vx_format() -> String { unimplemented!() }
+
+/// tokio::sync::Mutex around the cancellation map. `lock().await` yields the guard (sequential schedule: it is free); the guard's
+/// HashMap methods (reached through DerefMut in the source) read and write `st.cancellations`.
+#[verifier::external_body]
+#[verifier::reject_recursive_types(T)]
+pub struct Mutex<T> { _p: core::marker::PhantomData<T> }
+#[verifier::external_body]
+#[verifier::reject_recursive_types(T)]
+pub struct MutexGuard<T> { _p: core::marker::PhantomData<T> }
+/// std HashMap, only as the type parameter of the mutex
+#[verifier::external_body]
+#[verifier::reject_recursive_types(K)]
+#[verifier::reject_recursive_types(V)]
+pub struct HashMap<K, V> { _p: core::marker::PhantomData<(K, V)> }
+impl<T> Mutex<T> {
+    pub uninterp spec fn id(&self) -> int;
+    #[verifier::external_body]
+    pub fn lock(&self) -> (g: MutexGuard<T>) ensures g.mx() == self.id() { unimplemented!() }
+}
+impl<T> MutexGuard<T> {
+    pub uninterp spec fn mx(&self) -> int;
+}
+impl MutexGuard<HashMap<RequestId, CancellationToken>> {
+    /// HashMap::insert
+    #[verifier::external_body]
+    pub fn insert(&mut self, k: RequestId, v: CancellationToken, st: &mut Shared) -> (r: Option<CancellationToken>)
+        requires old(self).mx() == old(st).mx@,
+        ensures final(self).mx() == old(self).mx(), final(st).cancellations@ == old(st).cancellations@.insert(k, v.id()),
+            final(st).sent == old(st).sent, same_ids(&*old(st), &*final(st)),
+    { unimplemented!() }
+    /// HashMap::remove
+    #[verifier::external_body]
+    pub fn remove(&mut self, k: &RequestId, st: &mut Shared) -> (r: Option<CancellationToken>)
+        requires old(self).mx() == old(st).mx@,
+        ensures final(self).mx() == old(self).mx(), final(st).cancellations@ == old(st).cancellations@.remove(*k),
+            final(st).sent == old(st).sent, same_ids(&*old(st), &*final(st)),
+    { unimplemented!() }
+    /// HashMap::get
+    #[verifier::external_body]
+    pub fn get(&self, k: &RequestId, st: &mut Shared) -> (r: Option<&CancellationToken>)
+        requires self.mx() == old(st).mx@,
+        ensures *final(st) == *old(st),
+            r is Some <==> old(st).cancellations@.contains_key(*k),
+            r matches Some(t) ==> t.id() == old(st).cancellations@[*k],
+    { unimplemented!() }
+}
+/// tokio_util::sync::CancellationToken. Its flag is shared with every clone and can be set by `cancel` at ANY time (the
+/// `$/cancelRequest` notification is handled by the main loop while the task runs): `is_cancelled` is an arbitrary bool here.
+#[verifier::external_body]
+pub struct CancellationToken { _p: () }
+impl CancellationToken {
+    pub uninterp spec fn id(&self) -> int;
+    #[verifier::external_body]
+    pub fn new() -> CancellationToken { unimplemented!() }
+    #[verifier::external_body]
+    pub fn clone(&self) -> (r: CancellationToken) ensures r.id() == self.id() { unimplemented!() }
+    #[verifier::external_body]
+    pub fn is_cancelled(&self) -> bool { unimplemented!() }
+    #[verifier::external_body]
+    pub fn cancel(&self) { }
+}
+
+// ---- shims: the rest of what the extracted fns touch ---------------------------------------------------------------------------
+#[verifier::external_body]
+pub struct ServerContextInner { _p: () }
+#[verifier::external_body]
+pub struct ServerContextSnapshot { _p: () }
+impl ServerContextSnapshot {
+    #[verifier::external_body]
+    pub fn new(inner: Arc<ServerContextInner>) -> ServerContextSnapshot { unimplemented!() }
+}
+/// `Box<dyn Error + Sync + Send>`: the error value is opaque (rule `c24-error-type-opaque`)
+#[verifier::external_body]
+pub struct BoxedError { _p: () }
+/// lsp_types::request::Request (imported as LspRequest)
+pub trait LspRequest { type Params; type Result; const METHOD: &'static str; }
+
+pub enum Route { Known(bool), Unknown }
+
 //@@GENERATED routing-table
+
+// ---- property vocabulary ----------------------------------------------------------------------------------------------------------
+/// the log grew by EXACTLY ONE message
+pub open spec fn grew_by_one(a: &Shared, b: &Shared) -> bool {
+    b.sent@ == a.sent@.push(b.sent@.last())
+}
+/// the log grew by EXACTLY ONE message, and it is a response carrying `id`
+pub open spec fn one_response(a: &Shared, b: &Shared, id: RequestId) -> bool {
+    grew_by_one(a, b) && (b.sent@.last() matches Message::Response(x) && x.id == id)
+}
+pub open spec fn is_error(x: Response, code: i32) -> bool {
+    x.result is None && (x.error matches Some(e) && e.code == code)
+}
+/// the log grew by exactly one message: the error response `code` for `id`
+pub open spec fn one_error(a: &Shared, b: &Shared, id: RequestId, code: i32) -> bool {
+    grew_by_one(a, b) && (b.sent@.last() matches Message::Response(x) && x.id == id && is_error(x, code))
+}
+pub open spec fn last_is_error(b: &Shared) -> bool {
+    b.sent@.len() > 0 && (b.sent@.last() matches Message::Response(x) && x.error is Some)
+}
+/// The handshake code answered, in order and each once, the `initialize` requests the connection handed out since `a`: what it added to
+/// the log is one response per handed-out id (`pending`: the last one handed out is not answered yet).
+pub open spec fn init_answered(a: &Shared, b: &Shared, pending: bool) -> bool {
+    let (s0, i0) = (a.sent@.len() as int, a.init@.len() as int);
+    // the old log and the old hand-outs are still there
+    &&& s0 <= b.sent@.len() && (forall|j: int| 0 <= j < s0 ==> #[trigger] b.sent@[j] == a.sent@[j])
+    &&& i0 <= b.init@.len() && (forall|j: int| 0 <= j < i0 ==> #[trigger] b.init@[j] == a.init@[j])
+    // as many new responses as new hand-outs (one less while the last one is pending) ...
+    &&& b.init@.len() - i0 == b.sent@.len() - s0 + (if pending { 1int } else { 0int })
+    // ... and the k-th new message is a response for the k-th id handed out
+    &&& forall|j: int| s0 <= j < b.sent@.len() ==> (#[trigger] b.sent@[j] matches Message::Response(x) && x.id == b.init@[j - s0 + i0])
+}
+pub open spec fn same_ids_but_init(a: &Shared, b: &Shared) -> bool { a.chan == b.chan && a.mx == b.mx && a.cancellations == b.cancellations }
+/// the context's handles are the ones the shared state describes
+pub open spec fn ctx_wf(ctx: &ServerContext, st: &Shared) -> bool {
+    ctx.conn.sender.chan() == st.chan@ && ctx.cancellations.id() == st.mx@
+}
+/// what `task` may answer: RequestCanceled, InternalError, or a response the closure returned
+pub open spec fn task_answer<F: FnOnce(CancellationToken) -> Option<Response>>(m: Message, exec: F) -> bool {
+    m matches Message::Response(x) && (
+        is_error(x, ErrorCode::RequestCanceled as i32)
+        || is_error(x, ErrorCode::InternalError as i32)
+        || exists|t: CancellationToken| call_ensures(exec, (t,), Some(x)))
+}
+
+/// what the dispatcher owes a request, by case (the three property clauses of `on_request_handler`)
+pub open spec fn answered(req: Request, a: &Shared, b: &Shared) -> bool {
+    match route(req) {
+        Route::Known(true) => one_response(a, b, req.id),
+        Route::Known(false) => one_response(a, b, req.id) && last_is_error(b),
+        Route::Unknown => one_error(a, b, req.id, ErrorCode::MethodNotFound as i32),
+    }
+}
+
+// ---- shims for handle_message: what it calls besides the dispatcher -------------------------------------------------------------------
+#[verifier::external_body]
+pub struct ServerMessageProcessor { _p: () }
+#[verifier::external_body]
+pub struct AsyncConnection { _p: () }
+impl AsyncConnection {
+    /// server/connection.rs, by its text (NOT under proof here): `if req.method != "shutdown" { return Ok(false); }` — nothing sent;
+    /// otherwise `Response::new_ok(req.id.clone(), ())` is handed to the connection's sender, once, and the fn returns Ok(true) after the
+    /// `exit` notification, or Err (unexpected message / closed channel / 30 s timeout). Never Ok(false) for `shutdown`.
+    #[verifier::external_body]
+    pub fn handle_shutdown(&mut self, req: &Request, st: &mut Shared) -> (r: Result<bool, BoxedError>)
+        ensures
+            req.method@ != "shutdown"@ ==> r == Ok::<bool, BoxedError>(false) && *final(st) == *old(st),
+            req.method@ == "shutdown"@ ==> !(r matches Ok(false)) && one_response(&*old(st), &*final(st), req.id)
+                && final(st).cancellations == old(st).cancellations && same_ids(&*old(st), &*final(st)),
+    { unimplemented!() }
+}
+impl ServerContext {
+    /// drops the file watcher; sends nothing
+    #[verifier::external_body]
+    pub fn close(&self) { }
+}
+/// notifications and client responses: no contract here (see not_covered); they may hand messages to the client
+#[verifier::external_body]
+pub fn on_notification_handler(notification: Notification, server_context: &mut ServerContext, st: &mut Shared) -> (r: Result<(), BoxedError>)
+    ensures *final(server_context) == *old(server_context),
+{ unimplemented!() }
+#[verifier::external_body]
+pub fn on_response_handler(response: Response, server_context: &mut ServerContext, st: &mut Shared) -> (r: Result<(), BoxedError>)
+    ensures *final(server_context) == *old(server_context),
+{ unimplemented!() }
+pub mod context { pub use super::ServerContext; }
+
+// ---- extracted from /repo ---------------------------------------------------------------------------------------------------------
+//@@ ServerContext
+impl ServerContext {
+    //@@ ServerContext::snapshot
+    //@@ ServerContext::send
+    //@@ ServerContext::task
+    //@@ ServerContext::cancel
+}
+
+//@@ on_request_handler
+
+//@@ run_ls::initialize
+
+impl ServerMessageProcessor {
+    //@@ ServerMessageProcessor::handle_message
+}
+
+} // verus!
+fn main() {}
